@@ -293,6 +293,26 @@ func (w *World) SeqCat(a, b Term) Term {
 }
 func (w *World) SeqSub(s, a, b Term) Term { return App(s.Sort, "sub_"+seqX(s.Sort), s, a, b) }
 func (w *World) SeqUpd(s, i, e Term) Term { return App(s.Sort, "upd_"+seqX(s.Sort), s, i, e) }
+// SeqIn is membership `e in s`, axiomatised without quantifier alternation (in/idx functions): robust where
+// `exists i :: s[i] == e` needs a witness the e-matcher cannot find.
+func (w *World) SeqIn(e, s Term) Term {
+	x := seqX(s.Sort)
+	if _, ok := w.defs["seqin:"+x]; !ok {
+		r := strings.NewReplacer("$S", string(s.Sort), "$E", string(w.elemOf[s.Sort]), "$X", x)
+		w.AddDef("seqin:"+x, []string{"in_" + x, "idx_" + x}, r.Replace(seqInTemplate))
+	}
+	return App(SBool, "in_"+x, e, s)
+}
+
+const seqInTemplate = `(declare-fun in_$X ($E $S) Bool)
+(declare-fun idx_$X ($E $S) Int)
+(assert (forall ((e $E)) (! (not (in_$X e empty_$X)) :pattern ((in_$X e empty_$X)))))
+(assert (forall ((e $E) (y $E)) (! (= (in_$X e (unit_$X y)) (= e y)) :pattern ((in_$X e (unit_$X y))))))
+(assert (forall ((e $E) (a $S) (b $S)) (! (= (in_$X e (cat_$X a b)) (or (in_$X e a) (in_$X e b))) :pattern ((in_$X e (cat_$X a b))))))
+(assert (forall ((e $E) (s $S)) (! (=> (in_$X e s) (and (<= 0 (idx_$X e s)) (< (idx_$X e s) (len_$X s)) (= (at_$X s (idx_$X e s)) e))) :pattern ((in_$X e s)))))
+(assert (forall ((s $S) (i Int)) (! (=> (and (<= 0 i) (< i (len_$X s))) (in_$X (at_$X s i) s)) :pattern ((at_$X s i)))))
+`
+
 func (w *World) SeqMk(seq Sort, n Term) Term { return App(seq, "mkseq_"+seqX(seq), n) }
 func (w *World) SeqEq(a, b Term) Term {
 	if a.S == b.S {
